@@ -57,6 +57,7 @@ func genC12(g *Gen, tier string, w *bufio.Writer) {
 		// every read
 		fmt.Fprintln(w, "obs r")
 		fmt.Fprintln(w, "len r")
+		fmt.Fprintln(w, "blen r")
 		fmt.Fprintln(w, "iter r ro")
 		fmt.Fprintln(w, "iter r idx")
 		sh := &shadow{name: "r", t: t, v: v}
